@@ -1000,3 +1000,185 @@ class Holder:
         self.alignment = _auxdata.alignment.get(module)
 '''
 round7._FIXTURE_EXPECT["GEN.tablehandle"] = "Holder.__init__"
+
+
+_RETIREMENT_SITES = {
+    ("_modify.delete_symbols.delete_symbols", "symbol.module"): "C19: tables, expressions, then detachment (C19.5)",
+    ("_modify.remove.remove_block", "block.byte_interval"): "RET protocol at remove_block",
+    ("_modify.join.join_blocks", "block2.byte_interval"): "RET protocol at join_blocks",
+    ("prepare.prepare_for_rewriting", "interval.section"): "joined intervals leave their section (C01.7)",
+}
+
+
+@rule("C05.15", ["C05", "C03", "C06", "C02"], "nodes leave the module only at the four sites whose retirement protocol is checked (a new detach site discharges none of it)", 4)
+def c05_15(ctx: Ctx):
+    seen = set()
+    for q, fi in sorted(ctx.repo.funcs.items()):
+        for st in walk_no_nested(fi.node):
+            if not (isinstance(st, ast.Assign) and isinstance(st.value, ast.Constant) and st.value.value is None):
+                continue
+            for t in st.targets:
+                if isinstance(t, ast.Attribute) and t.attr in ("module", "section", "byte_interval") and isinstance(t.value, ast.Name):
+                    key = (q, src(t))
+                    if key in _RETIREMENT_SITES:
+                        seen.add(key)
+                        ctx.ok(fi, st, f"`{src(st)}` in {q.split('.')[-1]}", _RETIREMENT_SITES[key], key=f"{q}::detach::{src(t)}")
+                        continue
+                    x = t.value.id
+                    text = src(fi.node)
+                    edges = f"{x}.incoming_edges" in text or f"in_edges({x})" in text
+                    refs = f"{x}.references" in text or f"get_references({x})" in text
+                    ctx.fail(fi, st, f"`{src(st)}` in {q.split('.')[-1]}",
+                             f"`{src(st)}` takes `{x}` out of the module at a site that is not one of the four checked retirement sites"
+                             + (f" and looks only at {'its references' if refs and not edges else 'neither its references nor its incoming edges' if not refs else 'its edges'}" if not (edges and refs) else "")
+                             + ": whatever still points at it - an incoming call/branch edge of a proxy whose last *symbol* went away, functionBlocks/functionEntries rows of a stub block - "
+                             "now points outside the module and the IR no longer survives a protobuf round trip", key=f"{q}::detach::{src(t)}")
+    missing = set(_RETIREMENT_SITES) - seen
+    if missing:
+        raise AnalysisError(f"retirement site(s) not found: {sorted(missing)}")
+
+
+_ALIGNMENT_REMOVERS = {
+    "_modify.edit._add_other_section_contents", "_modify.remove._remove_alignment", "_modify.join.join_blocks",
+    "assembler.assembler.Assembler._remove_empty_blocks", "assembler.assembler.Assembler._convert_data_blocks", "assembler.assembler.Assembler._remove_trailing_empty_block.drop_block",
+    "assembler.assembler.Assembler._remove_trailing_empty_block",
+}
+
+
+@rule("C10.13", ["C10", "C05"], "alignment entries are removed only for one named block that is itself being removed or folded (no sweep over the table)", 5)
+def c10_13(ctx: Ctx):
+    n = 0
+    for q, fi in sorted(ctx.repo.funcs.items()):
+        for x in walk_no_nested(fi.node):
+            tgt = None
+            if isinstance(x, ast.Delete):
+                for t in x.targets:
+                    if isinstance(t, ast.Subscript) and "alignment" in src(t.value):
+                        tgt = t
+            elif isinstance(x, ast.Expr) and isinstance(x.value, ast.Call) and isinstance(x.value.func, ast.Attribute) and x.value.func.attr in ("pop", "clear", "popitem") and "alignment" in src(x.value.func.value):
+                tgt = x.value
+            elif isinstance(x, ast.Assign) and isinstance(x.value, ast.Call) and isinstance(x.value.func, ast.Attribute) and x.value.func.attr == "pop" and "alignment" in src(x.value.func.value):
+                tgt = x.value
+            if tgt is None:
+                continue
+            n += 1
+            in_loop = any(isinstance(lp, (ast.For, ast.While)) and any(y is x for y in ast.walk(lp)) and "alignment" in src(lp.iter if isinstance(lp, ast.For) else lp.test)
+                          for lp in walk_no_nested(fi.node))
+            ctx.check(q in _ALIGNMENT_REMOVERS and not in_loop, fi, x, f"`{src(x)[:60]}` in {q.split('.')[-1]}",
+                      f"`{src(x)[:70]}` removes alignment entries " + ("in a sweep over the table" if in_loop else "at a new site") + ": the table is keyed by blocks *and* by byte intervals and sections "
+                      "(join_byte_intervals honours those), so a clean-up that keeps only keys found among the module's blocks silently drops every section/interval requirement - even in a rewrite "
+                      "without modifications", key=f"{q}::alignment-removal")
+    if n < 5:
+        raise AnalysisError(f"only {n} alignment removals found")
+
+
+_ALIGNMENT_STORES = {
+    "_modify.join.join_blocks": "only under `block2_align > block1_align` (the stricter one wins)",
+    "assembler.assembler.Assembler._remove_empty_blocks": "max over the folded blocks (C10.6)",
+    "assembler.assembler.Assembler._convert_data_blocks": "copied to the freshly created data block that replaces the code block",
+    "assembler.assembler._Streamer._emit_alignment": "max(new, existing) (C10.12)",
+}
+
+
+@rule("C10.14", ["C10", "C05"], "a store into an alignment map never replaces a stricter requirement (reviewed sites, or `max(...)` with the existing entry, or only when absent)", 4)
+def c10_14(ctx: Ctx):
+    n = 0
+    for q, fi in sorted(ctx.repo.funcs.items()):
+        lin = None
+        for st in walk_no_nested(fi.node):
+            if not isinstance(st, ast.Assign):
+                continue
+            for t in st.targets:
+                if not (isinstance(t, ast.Subscript) and "alignment" in _expanded(fi.node, t.value).lower() and not isinstance(t.slice, ast.Slice)):
+                    continue
+                n += 1
+                if q in _ALIGNMENT_STORES:
+                    ctx.ok(fi, st, f"`{src(st)[:60]}`", _ALIGNMENT_STORES[q], key=f"{q}::alignment-store")
+                    continue
+                m, k, v = src(t.value), src(t.slice), st.value
+                keeps = isinstance(v, ast.Call) and isinstance(v.func, ast.Name) and v.func.id == "max" and any(
+                    (isinstance(x, ast.Call) and isinstance(x.func, ast.Attribute) and x.func.attr == "get" and src(x.func.value) == m) or (isinstance(x, ast.Subscript) and src(x.value) == m)
+                    for a in v.args for x in ast.walk(a))
+                lin = lin or linear(fi.node)
+                absent = False
+                try:
+                    absent = lin.under(lin.of(st), f"{k} not in {m}")
+                except Exception:
+                    pass
+                ctx.check(keeps or absent, fi, st, f"`{src(st)[:60]}` keeps the stricter requirement",
+                          f"`{src(st)[:80]}` overwrites whatever alignment `{k}` already has: a patch block that asked for `.align 16` and now starts where a weaker-aligned block used to be is "
+                          "recorded (and padded) for the weaker value only", key=f"{q}::alignment-store")
+    if n < 4:
+        raise AnalysisError(f"only {n} alignment stores found")
+
+
+@rule("GEN.byteorderliteral", ALL_PROPS, "integers are converted to/from bytes with the target's byte order, never a literal one", 1, scoped=True)
+def gen_byteorderliteral(ctx: Ctx):
+    n = 0
+    for q, fi in sorted(ctx.repo.funcs.items()):
+        for c in calls_in(fi.node):
+            if isinstance(c.func, ast.Attribute) and c.func.attr in ("to_bytes", "from_bytes"):
+                n += 1
+                lits = [a for a in list(c.args) + [k.value for k in c.keywords] if isinstance(a, ast.Constant) and a.value in ("little", "big")]
+                ctx.check(not lits, fi, c, f"`{src(c)[:60]}`",
+                          f"`{src(c)[:70]}` fixes the byte order in the source: the package assembles for big-endian MIPS32 as well, where a constant `.word 0x11223344` must come out as "
+                          "11 22 33 44", key=f"{q}::byteorder-literal")
+    if n < 4 and "fixture" not in ctx.repo.mods:
+        raise AnalysisError(f"only {n} to_bytes/from_bytes calls found")
+
+
+round7._FIXTURE += '''
+
+def emit_word(value, size):
+    return (value & 0xFFFFFFFF).to_bytes(size, "little")
+'''
+round7._FIXTURE_EXPECT["GEN.byteorderliteral"] = "emit_word"
+
+
+@rule("GEN.overwritemerge", ALL_PROPS, "an entry moved to another key of the same mapping is merged with, not written over, what that key already holds", 1, scoped=True)
+def gen_overwritemerge(ctx: Ctx):
+    n = 0
+    for q, fi in sorted(ctx.repo.funcs.items()):
+        fn = fi.node
+        moved: Dict[str, Tuple[str, str]] = {}   # local name -> (mapping, source key)
+        for a in walk_no_nested(fn):
+            if isinstance(a, ast.Assign) and len(a.targets) == 1 and isinstance(a.targets[0], ast.Name):
+                v = a.value
+                if isinstance(v, ast.Call) and isinstance(v.func, ast.Attribute) and v.func.attr == "pop" and v.args:
+                    if len(v.args) > 1 and isinstance(v.args[1], ast.Constant) and isinstance(v.args[1].value, (int, float)) and not isinstance(v.args[1].value, bool):
+                        continue   # a scalar (an alignment, a count): replacing one number by another is the merge
+                    moved[a.targets[0].id] = (src(v.func.value), src(v.args[0]))
+                elif isinstance(v, ast.Subscript) and not isinstance(v.slice, ast.Slice):
+                    moved[a.targets[0].id] = (src(v.value), src(v.slice))
+        if not moved:
+            continue
+        lin = None
+        for st in walk_no_nested(fn):
+            if not (isinstance(st, ast.Assign) and len(st.targets) == 1 and isinstance(st.targets[0], ast.Subscript) and isinstance(st.value, ast.Name) and st.value.id in moved):
+                continue
+            d, k2 = src(st.targets[0].value), src(st.targets[0].slice)
+            d0, k1 = moved[st.value.id]
+            if d != d0 or k1 == k2:
+                continue
+            n += 1
+            lin = lin or linear(fn)
+            absent = False
+            try:
+                absent = lin.under(lin.of(st), f"{k2} not in {d}")
+            except Exception:
+                pass
+            ctx.check(absent, fi, st, f"`{src(st)[:60]}` (value taken from `{d}[{k1}]`)",
+                      f"`{src(st)[:70]}` moves the entry of `{k1}` onto `{k2}` by plain assignment: whatever `{d}` already held for `{k2}` is lost (two labels at one position: the first was merged "
+                      "into the block earlier, the second is dropped from the index here and stays bound to a block that is in no section)", key=f"{q}::overwritemerge::{d}")
+    ctx.ok(ctx.repo.mod("rewriting"), None, f"{n} intra-mapping moves examined", nontrivial=False, key="GEN.overwritemerge::scan")
+
+
+round7._FIXTURE += '''
+
+def rehome(index, old_block, new_block):
+    syms = index.pop(old_block, None)
+    if not syms:
+        return
+    index[new_block] = syms
+'''
+round7._FIXTURE_EXPECT["GEN.overwritemerge"] = "rehome"
